@@ -169,3 +169,34 @@ Proof.
   unfold start_rtp_receivers, start_rtp_receivers_with.
   rewrite track_details_filter, possibly_planb_filter. reflexivity.
 Qed.
+
+Theorem models_ignore_other_attributes :
+  forall (d : desc),
+    track_details (filter_desc d) = track_details d /\
+    extract_bundle_id (filter_desc d) = extract_bundle_id d /\
+    extract_fingerprint (filter_desc d) = extract_fingerprint d /\
+    (forall classify, extract_ice_details classify (filter_desc d) = extract_ice_details classify d) /\
+    possibly_planb (filter_desc d) = possibly_planb d /\
+    (forall handled add_ok sem,
+       start_rtp_receivers handled add_ok sem (filter_desc d) = start_rtp_receivers handled add_ok sem d).
+Proof.
+  intros d. repeat split.
+  - exact (track_details_filter d).
+  - exact (extract_bundle_id_filter d).
+  - exact (extract_fingerprint_filter d).
+  - intros c. exact (extract_ice_details_filter c d).
+  - exact (possibly_planb_filter d).
+  - intros h a s. exact (start_rtp_receivers_filter h a s d).
+Qed.
+
+Theorem media_models_ignore_other_attributes :
+  forall (m : media),
+    get_rids (filter_media m) = get_rids m /\
+    peer_direction (m_attrs (filter_media m)) = peer_direction (m_attrs m) /\
+    (forall add_ok, handle_undeclared_ssrc add_ok (filter_media m) = handle_undeclared_ssrc add_ok m).
+Proof.
+  intros m. repeat split.
+  - exact (get_rids_filter m).
+  - exact (peer_direction_filter (m_attrs m)).
+  - intros a. exact (handle_undeclared_ssrc_filter a m).
+Qed.
